@@ -73,6 +73,36 @@ D = {
                "a node whose only edge is a singleton edge: it is left isolated by cleanup(isolates=False, singletons=False)"),
     "C19-m2": ("subhypergraph uses `nodes or H.nodes`",
                "an empty node selection returns the whole node set"),
+    "C12-m1": ("multiorder_laplacian reads the degrees off each Laplacian's diagonal divided by the order",
+               "rescale_per_node=True with edges of order >= 2: every such order is over-weighted by its order"),
+    "C12-m2": ("adjacency_tensor accumulates (`+= 1`) instead of setting the indicator",
+               "a hypergraph with repeated edges of the requested order: entries become multiplicities"),
+    "C13-m1": ("boundary_matrix (order 1) orients an edge by the row indices of its endpoints instead of sorting the labels",
+               "a triangle whose nodes were inserted in an order that is neither increasing nor decreasing by label: B1 B2 != 0"),
+    "C13-m2": ("boundary_matrix (general branch) computes the sign with `or` instead of adding the two orientation bits",
+               "a non-default orientation where a face and its induced orientation are both 1: B1 B2 != 0"),
+    "C15-m1": ("simplicial_edit_distance counts redundant missing faces with an integer instead of a de-duplicated set",
+               "three or more maximal edges sharing a missing face: it is subtracted once per neighbour"),
+    "C15-m2": ("Trie.search no longer sorts its argument",
+               "node labels whose set iteration order is not sorted (ints >= 8 mixed with small ones): existing sub-edges are reported missing"),
+    "C06-m3": ("dinodestats.in_degree / out_degree filter edges by len(tail) + len(head) instead of the size of their union",
+               "a directed edge with a node in both tail and head, queried with order=: it is counted under the wrong order"),
+    "C06-m4": ("IDStat.aspandas builds the Series from the id-set-ordered `_val` instead of asdict()",
+               "ids whose set order differs from insertion order: aspandas disagrees positionally with aslist / asnumpy"),
+    "C07-m3": ("Hypergraph pickling drops the id counter and restarts it at len(edges) on load",
+               "integer edge ids that are not exactly 0..m-1: an unpickled network hands out an id that is already taken"),
+    "C10-m3": ("from_bipartite_graph decides the link orientation once, from the first vertex",
+               "a bipartite graph whose node- and edge-vertices were inserted interleaved: roles of some nodes and edges are swapped"),
+    "C10-m4": ("to_hypergraph(SimplicialComplex) attaches node attributes after the edges instead of adding the nodes first",
+               "a simplicial complex with isolated nodes: they (and their attributes) are lost"),
+    "C14-m3": ("to_graph relabels with the index map returned by adjacency_matrix",
+               "a hypergraph without edges whose labels are not 0..n-1: the projection graph has vertices 0..n-1"),
+    "C14-m4": ("single_source_shortest_path_length expands the first reached unvisited node instead of the closest one",
+               "a cycle of length >= 5: a node first reached along the longer way keeps the larger distance (and symmetry fails)"),
+    "C16-m3": ("_index_to_edge_partition precomputes strides from the leading block sizes (cumprod) instead of the trailing ones",
+               "blocks of unequal size: the decoding is no longer a bijection (one pair twice, one never)"),
+    "C16-m4": ("flag_complex_d2 tests `if p2:` instead of `if p2 is not None:`",
+               "p2 = 0: all triangles are kept instead of none"),
     "C03-m3": ("SimplicialComplex.add_simplices_from (dict branch) tests faces against a snapshot `existing` taken before the loop",
                "two simplices of one bulk call sharing a face: the face is added twice (duplicate simplex)"),
     "C03-m4": ("SimplicialComplex.remove_simplex_id removes only the immediate cofaces",
